@@ -768,21 +768,67 @@ class Evaluator:
                 if tgt.split('<')[0] in HANDLE_NAMES:
                     # `self.as_sync()` spliced into a caller: the same handle seen through the other flavour's type
                     return o_
+            if rv['ck'] == 'IntToInt' and o_[0] == 'const' and str(o_[2]).lstrip('-').isdigit() and str(o_[1]) in ('isize',) or (
+                    rv['ck'] == 'IntToInt' and o_[0] == 'const' and str(o_[1]).startswith('intenum:')):
+                return ('const', rv['ty'], o_[2])
+            if rv['ck'] == 'IntToInt' and o_[0] == 'param' and self.is_int_enum_param(st, o_):
+                return o_
             return ('cast', rv['ck'], o_, rv['ty'])
         if k == 'agg':
             fields = tuple(self.operand(st, f) for f in rv['fields'])
             if rv['ak'] == 'adt':
+                iv = self.int_enum_value(canon(rv['name']), rv['variant']) if not fields else None
+                if iv is not None:
+                    # a private field-less enum with an integer representation (`#[repr(u8)] enum State { Unlocked = 0, .. }`) used as
+                    # the named form of its numbers: the value IS its discriminant
+                    return iv
                 return ('agg', canon(rv['name']), rv['variant'], fields, tuple(rv.get('fnames', ())))
             return ('agg', rv['ak'], rv.get('name', ''), fields, ())
         if k == 'discr':
             pl = self.place(st, rv['p'])
             t = len(st.events)
             v = self.read_place(st, pl, t)
+            if v[0] == 'const' and str(v[1]).startswith('intenum:'):
+                return ('const', 'isize', v[2])
+            if self.is_int_enum_ty(rv['p'].get('ty')):
+                return v  # the integer the enum stands for (see above): `state as u8` on a parameter of that enum type
             return ('discr', v, tuple((a, b) for a, b in rv['variants']))
         if k == 'copyforderef':
             pl = self.place(st, rv['p'])
             return self.read_place(st, pl, len(st.events))
         return ('unknown', rv.get('dbg', k))
+
+    def int_enum_value(self, name, variant):
+        facts = self.body.facts
+        if facts is None:
+            return None
+        a = facts.adts_by_canon().get(name)
+        if not a or a.get('kind') != 'Enum' or str(a.get('repr_int')) in ('None', '') or any(v['fields'] for v in a['variants']):
+            return None
+        if name.endswith(('FutureState', 'KanalWaker')):
+            return None
+        for v in a['variants']:
+            if v['name'] == variant and v.get('discr') is not None:
+                return ('const', 'intenum:' + name, str(v['discr']))
+        return None
+
+    def is_int_enum_param(self, st, v):
+        body = st.body or self.body
+        try:
+            ty = body.locals[v[1]]['ty']
+        except Exception:
+            return False
+        return self.is_int_enum_ty(ty)
+
+    def is_int_enum_ty(self, ty):
+        facts = self.body.facts
+        if facts is None or not ty:
+            return False
+        if canon(str(ty)).endswith(('FutureState', 'KanalWaker')):
+            return False  # enums the rules know by their variants
+        a = facts.adts_by_canon().get(canon(str(ty)))
+        return bool(a) and a.get('kind') == 'Enum' and str(a.get('repr_int')) not in ('None', '') and not any(v['fields'] for v in a['variants']) \
+            and all(v.get('discr') is not None for v in a['variants'])
 
     def assign(self, st, lhs, val, at, bb):
         self.assign_place(st, self.place(st, lhs), val, at, bb)
